@@ -15,6 +15,8 @@ import (
 	"context"
 	stdjson "encoding/json"
 	"fmt"
+	"math"
+	"math/rand"
 	"os"
 	"os/exec"
 	"reflect"
@@ -289,6 +291,24 @@ type c08Variant struct {
 	std  func(v interface{}) ([]byte, error)
 }
 
+// the members of a map come in any order: compared as values
+func (va c08Variant) unordered() bool { return strings.HasSuffix(va.name, "unordered map") }
+
+// c08SameValue: two JSON texts denote the same value (numbers compared as written).  The layout is not compared:
+// with UnorderedMap the indenting encoder puts the members of a map one level further left than encoding/json,
+// which is a matter of C13, not of this property.
+func c08SameValue(a, b []byte) bool {
+	var x, y interface{}
+	da := stdjson.NewDecoder(bytes.NewReader(a))
+	da.UseNumber()
+	db := stdjson.NewDecoder(bytes.NewReader(b))
+	db.UseNumber()
+	if da.Decode(&x) != nil || db.Decode(&y) != nil {
+		return false
+	}
+	return reflect.DeepEqual(x, y)
+}
+
 func c08Variants() []c08Variant {
 	strip := func(b []byte) []byte { return c13StripMarkers(b) }
 	return []c08Variant{
@@ -416,14 +436,47 @@ func runC08Child(o *Out) {
 	skip, _ := strconv.Atoi(os.Getenv("C08_SKIP"))
 	caseNo := 0
 	vars := c08Variants()
-	exact := true // compare with encoding/json (the generated types at the end are only required not to crash or panic: their text is C01's business)
+	extra := c08ExtraVariants()
+	var timing map[string]time.Duration // C08_TIMING=1: where the time goes, on stderr
+	if os.Getenv("C08_TIMING") != "" {
+		timing = map[string]time.Duration{}
+		defer func() {
+			for k, v := range timing {
+				fmt.Fprintf(os.Stderr, "C08 timing %8.2fs %s\n", v.Seconds(), k)
+			}
+		}()
+	}
+	noExtra := os.Getenv("C08_NOEXTRA") != "" // for timing comparisons
+	extraMode := 0                            // 0: the six interpreter variants only; 1: one further entry point in rotation; 2: every further entry point
+	exact := true                             // compare with encoding/json (the generated types at the end are only required not to crash or panic: their text is C01's business)
 	run := func(desc string, v interface{}, cyclic bool) {
 		caseNo++
 		if caseNo <= skip {
 			return
 		}
 		os.WriteFile(o.dir+"/progress", []byte(strconv.Itoa(caseNo)), 0o644)
-		for _, va := range vars {
+		if !strings.HasPrefix(desc, "generated") && !strings.HasPrefix(desc, "position sweep") {
+			o.count("cases:"+strings.TrimRight(c08TimingKey(desc), " ,"), 1)
+		}
+		if timing != nil {
+			t0 := time.Now()
+			defer func() { timing[c08TimingKey(desc)] += time.Since(t0) }()
+		}
+		use := vars
+		em := extraMode
+		if noExtra {
+			em = 0
+		}
+		switch em {
+		case 1:
+			use = append(append([]c08Variant(nil), vars...), extra[caseNo%len(extra)])
+		case 2:
+			use = append(append([]c08Variant(nil), vars...), extra...)
+		}
+		for _, va := range use {
+			if len(use) > len(vars) {
+				o.count("entry_point:"+va.name, 1) // counters, not histograms: the parent takes over the counters of a child
+			}
 			o.current(map[string]string{"property": "C08", "case": desc, "variant": va.name, "cyclic": strconv.FormatBool(cyclic)})
 			got, err := c01Safe(func() ([]byte, error) { return va.f(v) })
 			o.count("encodes", 1)
@@ -443,6 +496,9 @@ func runC08Child(o *Out) {
 				o.violation("C08", "an acyclic value failed to encode", map[string]string{"case": desc, "variant": va.name, "error": clipN(err.Error(), 300)})
 				continue
 			}
+			if exact && va.unordered() && c08SameValue(got, want) {
+				continue
+			}
 			if exact && !tgSameJSON(got, want) {
 				o.violation("C08", "an acyclic value was encoded wrongly", map[string]string{"case": desc, "variant": va.name,
 					"first_difference": strconv.Itoa(firstDiff(got, want)), "got_at_difference": around(got, firstDiff(got, want)), "want_at_difference": around(want, firstDiff(got, want))})
@@ -455,11 +511,34 @@ func runC08Child(o *Out) {
 			depths = append(depths, d)
 		}
 	}
+	open := os.Getenv("AUDIT_OPEN") == "1"
+	step := func() bool { // the bookkeeping of run() for the strata that do not go through it: true = skip this case
+		caseNo++
+		if caseNo <= skip {
+			return true
+		}
+		os.WriteFile(o.dir+"/progress", []byte(strconv.Itoa(caseNo)), 0o644)
+		return false
+	}
 	for _, d := range depths {
+		// the further entry points: all of them on the shallow values, one in rotation up to depth 200, beyond that one in
+		// rotation on the plainest chains only (the texts are quadratic in the depth)
+		deepMode := func(m int) {
+			if d > 200 {
+				extraMode = m
+			}
+		}
+		extraMode = 1
+		if d <= 13 {
+			extraMode = 2
+		}
+		deepMode(0)
 		th := c08ThinChain(d)
 		run(fmt.Sprintf("thin chain depth %d", d), th, false)
 		run(fmt.Sprintf("thin chain depth %d in interface", d), C08Wrap{1, th, "after"}, false)
+		deepMode(1)
 		run(fmt.Sprintf("link chain depth %d", d), c08LinkChain(d), false)
+		deepMode(0)
 		run(fmt.Sprintf("link chain depth %d twice in a slice", d), []*C08Link{c08LinkChain(d), c08LinkChain(d / 2)}, false)
 		run(fmt.Sprintf("tree chain depth %d", d), c08TreeChain(d), false)
 		run(fmt.Sprintf("shared leaf below %d links", d), c08SharedChain(d), false)
@@ -467,11 +546,40 @@ func runC08Child(o *Out) {
 			for k, v := range c08PIShapes(d) {
 				run(fmt.Sprintf("*interface{} members, shape %d, depth %d", k+1, d), v, false)
 			}
+			run(fmt.Sprintf("callbacks that call the library again, depth %d", d), c08ReenterChain(d), false)
+		}
+		ni := c08NIChain(d, r)
+		if d <= 200 || d == 1000 || d == 1001 || d == 2000 || o.tier == "thorough" {
+			deepMode(1)
+			run(fmt.Sprintf("non-empty interface members, depth %d", d), ni, false)
+			deepMode(0)
+		}
+		if ni != nil && d <= 200 {
+			run(fmt.Sprintf("non-empty interface members, depth %d, held in a non-empty interface", d), struct {
+				A int
+				S C08Shape
+			}{1, ni}, false)
+		}
+		for k, v := range c08IfaceFirstShapes(d) {
+			if d > 200 && d != 1000 && !open {
+				if d < 1001 {
+					continue
+				}
+				// open finding candidate (audit A8): the address of an interface member at offset 0 is the address of the
+				// struct, which OpRecursive has just put on SeenPtr: 'encountered a cycle' for an acyclic value
+				o.count("skipped_without_AUDIT_OPEN:interface_at_offset_0_below_1000_levels", 1)
+				continue
+			}
+			run(fmt.Sprintf("interface member at offset 0 of a recursive struct, shape %d, depth %d", k+1, d), v, false)
+		}
+		if d <= 200 {
+			run(fmt.Sprintf("text-marshaler map keys with callbacks, depth %d", d), c08KeyChain(d), false)
 		}
 		runtime.GC()
 		if d > 200 {
 			continue // the fat shapes below produce text quadratic in the depth times their width
 		}
+		extraMode = 1 // every one of these values has callbacks that collect: one further entry point in rotation
 		for rep := 0; rep < 3; rep++ {
 			n := c08Chain(d, r)
 			run(fmt.Sprintf("chain depth %d rep %d", d, rep), n, false)
@@ -480,6 +588,9 @@ func runC08Child(o *Out) {
 				run(fmt.Sprintf("chain depth %d rep %d in wrapper", d, rep), C08Wrap{1, n, "after"}, false)
 				run(fmt.Sprintf("chain depth %d rep %d in []interface{}", d, rep), []interface{}{n, "x", n}, false)
 			}
+		}
+		if d <= 13 {
+			extraMode = 2
 		}
 		m := c08Mut(d)
 		run(fmt.Sprintf("mutual depth %d", d), m, false)
@@ -495,8 +606,39 @@ func runC08Child(o *Out) {
 		}
 		run(fmt.Sprintf("interface nesting depth %d", d), nest, false)
 	}
+	// every field kind before and after every kind of recursive / interface member
+	extraMode = 0
+	if o.tier == "thorough" {
+		extraMode = 1
+	}
+	c08PositionSweep(o, r, run)
 	// cycles
+	extraMode = 2
 	{
+		{
+			n := c08NIChain(40, r)
+			t := n
+			for t.Next != nil {
+				t = t.Next
+			}
+			t.S = n
+			run("cycle through a non-empty interface", n, true)
+			t.S = C08Poly{C08Dot(1), C08Named{"back": C08Sq{W: 1, In: n}}}
+			run("cycle through a slice, a map and a struct held in non-empty interfaces", n, true)
+			p := &C08PI1{}
+			var back interface{} = p
+			p.Next = &C08PI1{V: &back}
+			run("cycle through a *interface{} member", p, true)
+			k := &C08KM{A: 1}
+			k.M = map[C08Key]*C08KM{3: {I: map[C08Key]interface{}{4: k}}}
+			run("cycle through maps with text-marshaler keys", k, true)
+			f := &C08IF1{}
+			f.I = f
+			run("cycle through an interface member at offset 0", f, true)
+			f2 := &C08IF1{I: 1}
+			f2.Next = &C08IF1{I: []interface{}{f2}}
+			run("cycle through a slice in an interface member at offset 0", f2, true)
+		}
 		a := &C08Node{A: 1}
 		a.Next = a
 		run("cycle: node.Next = node", a, true)
@@ -509,7 +651,9 @@ func runC08Child(o *Out) {
 		run("cycle through an interface", d, true)
 		e := &C08Node{A: 5}
 		e.F[0] = &C08Node{A: 6, Next: e}
+		extraMode = 0 // a collection at each of the thousand levels: the six interpreter variants are enough
 		run("cycle through an array of pointers", e, true)
+		extraMode = 2
 		s := []interface{}{nil}
 		s[0] = s
 		run("slice that contains itself", s, true)
@@ -530,24 +674,74 @@ func runC08Child(o *Out) {
 		tail.Next = long
 		run("long cycle", long, true)
 	}
+	extraMode = 0
+	for _, m := range c08ReenterMismatch {
+		o.violation("C08", "an encode started from inside a marshal callback went wrong", map[string]string{"detail": clipN(m, 400)})
+	}
+	o.count("reentrant_inner_mismatches", int64(len(c08ReenterMismatch)))
+	// an encode that fails at some depth, then encodes that must be right
+	t0 := time.Now()
+	c08ErrorThenReuse(o, append(append([]c08Variant(nil), vars...), extra...), step)
+	if timing != nil {
+		timing["failing encode then canary"] = time.Since(t0)
+	}
 	// stack-resident values with a callback that moves the stack
-	for i := 0; i < 24; i++ {
+	nstack := 24 + 12
+	if open {
+		nstack += 8
+	} else {
+		// open finding candidate (audit A8): MarshalNoEscape keeps the address of a value on the goroutine stack as a
+		// uintptr; after a callback has moved the stack the fields are read from the old block (garbage, panic or fault)
+		o.count("skipped_without_AUDIT_OPEN:MarshalNoEscape_of_a_stack_resident_value", 8)
+	}
+	for i := 0; i < nstack; i++ {
 		caseNo++
 		if caseNo <= skip {
 			continue
 		}
 		os.WriteFile(o.dir+"/progress", []byte(strconv.Itoa(caseNo)), 0o644)
-		o.current(map[string]string{"property": "C08", "case": "stack-resident value, callback grows the stack", "iteration": strconv.Itoa(i)})
 		// in a fresh goroutine whose stack has first been grown to 64 KiB or more
 		type res struct{ got, want string }
 		ch := make(chan res)
+		if i >= 24 && open {
+			o.checkpoint() // the next case may end the process: what has been found so far is merged by the parent
+		}
+		entry := []string{"Marshal(&v)", "Marshal(&v)", "MarshalContext(v)", "MarshalIndent(&v)"}[i%4]
+		if i >= 24 {
+			switch {
+			case i >= 36:
+				entry = []string{"MarshalNoEscape(v)", "MarshalNoEscape(&v)"}[i%2]
+			case i%3 == 0:
+				entry = "Encoder.Encode(&v)"
+			case i%3 == 1:
+				entry = "Encoder.Encode(&v), indented"
+			default:
+				entry = "MarshalWithOption(v, UnorderedMap, DisableHTMLEscape)"
+			}
+		}
+		o.current(map[string]string{"property": "C08", "case": "stack-resident value, callback grows the stack", "entry_point": entry, "iteration": strconv.Itoa(i)})
 		go func(i int) {
+			defer func() {
+				if e := recover(); e != nil {
+					ch <- res{"PANIC: " + clipN(fmt.Sprint(e), 200), "(no panic)"}
+				}
+			}()
 			c08Grow(150)
 			var g, w string
-			switch i % 4 {
-			case 3:
+			switch entry {
+			case "MarshalNoEscape(v)":
+				g, w = c08StackCaseNoEscape(int64(1000+i), true)
+			case "MarshalNoEscape(&v)":
+				g, w = c08StackCaseNoEscape(int64(1000+i), false)
+			case "Encoder.Encode(&v)":
+				g, w = c08StackCaseEncoder(int64(1000+i), false)
+			case "Encoder.Encode(&v), indented":
+				g, w = c08StackCaseEncoder(int64(1000+i), true)
+			case "MarshalWithOption(v, UnorderedMap, DisableHTMLEscape)":
+				g, w = c08StackCaseOption(int64(1000 + i))
+			case "MarshalIndent(&v)":
 				g, w = c08StackCaseIndent(int64(1000 + i))
-			case 2:
+			case "MarshalContext(v)":
 				g, w = c08StackCaseContext(int64(1000 + i))
 			default:
 				g, w = c08StackCase(int64(1000+i), 0)
@@ -557,8 +751,10 @@ func runC08Child(o *Out) {
 		rr := <-ch
 		got, want := rr.got, rr.want
 		o.count("stack_resident_cases", 1)
+		o.count("stack_resident_entry_point:"+entry, 1)
 		if got != want {
-			o.violation("C08", "a value on the goroutine stack was read from stale memory after a callback moved the stack", map[string]string{"got": clipN(got, 300), "want": want, "iteration": strconv.Itoa(i)})
+			o.violation("C08", "a value on the goroutine stack was read from stale memory after a callback moved the stack", map[string]string{
+				"entry_point": entry, "got": clipN(got, 300), "want": want, "iteration": strconv.Itoa(i)})
 		}
 	}
 	// generated types that contain recursive named types, with GC callbacks
@@ -655,6 +851,9 @@ func runC08(o *Out) {
 				det["case"] = string(b)
 			}
 			o.violation("C08", "the encoder crashed or hung the process", det)
+			if _, e := os.Stat(dir + "/stats.json"); e == nil {
+				mergeChild(o, dir) // the child wrote down what it had found before it died (the cases up to there are skipped next time)
+			}
 			if time.Since(startAll) > 2*limit {
 				break
 			}
@@ -666,4 +865,665 @@ func runC08(o *Out) {
 			skip = n
 		}
 	}
+}
+
+// ======================================================================================================
+// Audit A8: dimensions of the quantifier the strata above did not reach.
+//   - entry points: MarshalNoEscape, MarshalContext, Encoder (compact, indented, EncodeContext) and the
+//     UnorderedMap option (its own branches in OpMap/OpMapKey/OpMapValue of all four interpreters)
+//   - members of a non-empty interface type (OpInterface takes the dynamic type from the itab)
+//   - an interface member at offset 0 of a recursive struct (its address is the address of the struct)
+//   - marshal callbacks that call the library again, text-marshaler map keys with GC callbacks
+//   - every field kind before and after every kind of recursive / interface member (position sweep)
+//   - an encode that fails at some depth followed by encodes that must be right (the pooled context is reused)
+// ======================================================================================================
+
+func c08TimingKey(desc string) string {
+	if strings.HasPrefix(desc, "position sweep") {
+		if i := strings.Index(desc, "; M "); i > 0 {
+			desc = "position sweep " + desc[i:]
+			if j := strings.Index(desc, "; A"); j > 0 {
+				return desc[:j]
+			}
+		}
+	}
+	if i := strings.IndexAny(desc, "0123456789:"); i > 0 {
+		desc = desc[:i]
+	}
+	return desc
+}
+
+func c08ExtraVariants() []c08Variant {
+	stdPlain := func(v interface{}) ([]byte, error) { return stdjson.Marshal(v) }
+	stdIndent := func(v interface{}) ([]byte, error) { return stdjson.MarshalIndent(v, "", " ") }
+	trim := func(b []byte) []byte { return bytes.TrimSuffix(b, []byte("\n")) }
+	return []c08Variant{
+		{name: "MarshalNoEscape", f: func(v interface{}) ([]byte, error) { return gojson.MarshalNoEscape(v) }, std: stdPlain},
+		{name: "MarshalContext", f: func(v interface{}) ([]byte, error) { return gojson.MarshalContext(context.Background(), v) }, std: stdPlain},
+		{name: "Encoder", f: func(v interface{}) ([]byte, error) {
+			var b bytes.Buffer
+			err := gojson.NewEncoder(&b).Encode(v)
+			return trim(b.Bytes()), err
+		}, std: stdPlain},
+		{name: "Encoder, indent", f: func(v interface{}) ([]byte, error) {
+			var b bytes.Buffer
+			e := gojson.NewEncoder(&b)
+			e.SetIndent("", " ")
+			err := e.Encode(v)
+			return trim(b.Bytes()), err
+		}, std: stdIndent},
+		{name: "EncodeContext, no HTML escape", f: func(v interface{}) ([]byte, error) {
+			var b bytes.Buffer
+			e := gojson.NewEncoder(&b)
+			e.SetEscapeHTML(false)
+			err := e.EncodeContext(context.Background(), v)
+			return trim(b.Bytes()), err
+		}, std: func(v interface{}) ([]byte, error) {
+			var b bytes.Buffer
+			e := stdjson.NewEncoder(&b)
+			e.SetEscapeHTML(false)
+			err := e.Encode(v)
+			return trim(b.Bytes()), err
+		}},
+		{name: "plain, unordered map", f: func(v interface{}) ([]byte, error) { return gojson.MarshalWithOption(v, gojson.UnorderedMap()) }, std: stdPlain},
+		{name: "indent, unordered map", f: func(v interface{}) ([]byte, error) {
+			return gojson.MarshalIndentWithOption(v, "", " ", gojson.UnorderedMap())
+		}, std: stdIndent},
+		{name: "colour, unordered map", f: func(v interface{}) ([]byte, error) {
+			b, err := gojson.MarshalWithOption(v, gojson.Colorize(c13Scheme()), gojson.UnorderedMap())
+			return c13StripMarkers(b), err
+		}, std: stdPlain},
+	}
+}
+
+// ---- members of a non-empty interface type ----
+
+type C08Shape interface{ Sides() int }
+
+type C08Sq struct { // a struct value in the interface (stored behind a pointer)
+	W  int
+	In *C08NI
+}
+
+func (C08Sq) Sides() int { return 4 }
+
+type C08Tri struct{ A, B, C int8 } // the interface holds the pointer
+
+func (*C08Tri) Sides() int { return 3 }
+
+type C08Poly []C08Shape
+
+func (p C08Poly) Sides() int { return len(p) }
+
+type C08Named map[string]C08Shape
+
+func (C08Named) Sides() int { return 0 }
+
+type C08Dot int
+
+func (C08Dot) Sides() int { return 0 }
+
+type C08NI struct {
+	A    int16
+	S    C08Shape
+	Next *C08NI
+	B    string
+	Kids []C08Shape
+	M    map[string]C08Shape
+	Z    bool
+}
+
+func (*C08NI) Sides() int { return 1 }
+
+func c08NIChain(depth int, r interface{ Intn(int) int }) *C08NI {
+	var n *C08NI
+	for i := 0; i < depth; i++ {
+		m := &C08NI{A: int16(i), B: "b" + strconv.Itoa(i%5), Z: i%2 == 1}
+		k := r.Intn(8)
+		if n == nil {
+			k = 7
+		}
+		if depth > 200 && (k == 4 || k == 6) {
+			k = 1 // every enclosing map keeps a copy of the text below it until it has sorted its members: no maps in the deepest chains
+		}
+		switch k {
+		case 0:
+			m.Next = n
+		case 1:
+			m.S = n
+		case 2:
+			m.S = C08Sq{W: i, In: n}
+		case 3:
+			m.Kids = []C08Shape{C08Dot(i), n, &C08Tri{1, 2, int8(i)}, nil}
+		case 4:
+			m.M = map[string]C08Shape{"k": n, "d": C08Dot(i)}
+		case 5:
+			m.S = C08Poly{n, C08Dot(i)}
+		case 6:
+			m.S = C08Named{"x": n}
+		default:
+			m.Next = n
+			m.S = &C08Tri{int8(i), 0, 1}
+			m.Kids = []C08Shape{C08Sq{W: i}}
+		}
+		n = m
+	}
+	return n
+}
+
+// ---- an interface member at offset 0 of a recursive struct ----
+
+type C08IF1 struct {
+	I    interface{}
+	Next *C08IF1
+}
+type C08IF2 struct { // the interface is the first member of the first member
+	W    C08Leaf
+	Next *C08IF2
+	N    int
+}
+type C08IF3 struct {
+	A    [2]interface{}
+	Kids []C08IF3
+}
+type C08IF4 struct {
+	S    C08Shape
+	Next *C08IF4
+}
+type C08IF5 struct {
+	C08Leaf
+	Next *C08IF5
+}
+
+func c08IfaceFirstShapes(depth int) []interface{} {
+	var a *C08IF1
+	var b *C08IF2
+	c := C08IF3{A: [2]interface{}{"leaf", nil}}
+	var d *C08IF4
+	var e *C08IF5
+	for i := 0; i < depth; i++ {
+		a = &C08IF1{I: i, Next: a}
+		b = &C08IF2{W: C08Leaf{I: "w" + strconv.Itoa(i%3)}, Next: b, N: i}
+		c = C08IF3{A: [2]interface{}{i, []interface{}{i}}, Kids: []C08IF3{c}}
+		d = &C08IF4{S: C08Dot(i), Next: d}
+		e = &C08IF5{C08Leaf: C08Leaf{I: map[string]interface{}{"k": i}}, Next: e}
+	}
+	return []interface{}{a, b, c, d, e}
+}
+
+// ---- marshal callbacks that call the library again ----
+
+var c08ReenterMismatch []string // what an inner call got wrong (the outer comparison cannot see it: both libraries run the same callback)
+
+type C08Reenter struct {
+	Mode int
+	V    *C08Link
+	T    *C08Thin
+}
+
+func (x C08Reenter) MarshalJSON() ([]byte, error) {
+	var got, want []byte
+	var err error
+	switch x.Mode % 6 {
+	case 0:
+		got, err = gojson.Marshal(x.V)
+		want, _ = stdjson.Marshal(x.V)
+	case 1:
+		got, err = gojson.MarshalIndent(x.T, "", "  ")
+		want, _ = stdjson.MarshalIndent(x.T, "", "  ")
+	case 2:
+		var b bytes.Buffer
+		err = gojson.NewEncoder(&b).Encode(x.T)
+		got = bytes.TrimSuffix(b.Bytes(), []byte("\n"))
+		want, _ = stdjson.Marshal(x.T)
+	case 3:
+		got, err = gojson.MarshalWithOption(map[string]interface{}{"v": x.V, "t": x.T, "n": x.Mode}, gojson.UnorderedMap())
+		want, _ = stdjson.Marshal(map[string]interface{}{"v": x.V, "t": x.T, "n": x.Mode})
+		if c08SameValue(got, want) {
+			got = want // the text handed on must not depend on the iteration order
+		}
+	case 4:
+		got, err = gojson.MarshalContext(context.Background(), x.V)
+		want, _ = stdjson.Marshal(x.V)
+	default:
+		got, err = gojson.MarshalNoEscape(x.T)
+		want, _ = stdjson.Marshal(x.T)
+	}
+	if err != nil {
+		c08ReenterMismatch = append(c08ReenterMismatch, fmt.Sprintf("mode %d: error %v", x.Mode%6, err))
+		return nil, err
+	}
+	if !bytes.Equal(got, want) && len(c08ReenterMismatch) < 20 {
+		c08ReenterMismatch = append(c08ReenterMismatch, fmt.Sprintf("mode %d: first difference at %d: got %s want %s", x.Mode%6, firstDiff(got, want), around(got, firstDiff(got, want)), around(want, firstDiff(got, want))))
+	}
+	return got, nil
+}
+
+type C08RE struct {
+	A    int
+	R    C08Reenter
+	Next *C08RE
+	P    *C08Reenter
+	I    interface{}
+	Z    string
+}
+
+// c08ThinQuiet: a thin chain whose callbacks do not collect (a collection in every callback of every inner call costs seconds)
+func c08ThinQuiet(depth, base int) *C08Thin {
+	n := c08ThinChain(depth)
+	for t := n; t != nil; {
+		t.G = C08GC{base*37 + 1}
+		if t.Next != nil {
+			t = t.Next
+		} else {
+			t, _ = t.I.(*C08Thin)
+		}
+	}
+	return n
+}
+
+func c08ReenterChain(depth int) *C08RE {
+	var n *C08RE
+	for i := 0; i < depth; i++ {
+		m := &C08RE{A: i, R: C08Reenter{Mode: i, V: c08LinkChain(i % 4), T: c08ThinQuiet(i%5, i)}, Z: "z"}
+		switch i % 3 {
+		case 0:
+			m.Next = n
+		case 1:
+			m.I = n
+		default:
+			m.I = []interface{}{n, C08Reenter{Mode: i + 1, V: c08LinkChain(2)}}
+		}
+		if i%4 == 2 {
+			// two levels of re-entrance: the inner value holds a callback of the same kind
+			inner := c08ThinQuiet(2, i)
+			inner.I = C08Reenter{Mode: i + 2, V: c08LinkChain(1), T: c08ThinQuiet(3, i)}
+			if i%16 == 2 {
+				inner.G = C08GC{37} // a collection and a stack move inside the inner call
+			}
+			m.P = &C08Reenter{Mode: 1, T: inner}
+		}
+		n = m
+	}
+	return n
+}
+
+// ---- map keys that are text marshalers with callbacks, in a recursive map ----
+
+type C08Key int
+
+func (k C08Key) MarshalText() ([]byte, error) {
+	if k%61 == 0 {
+		runtime.GC()
+		c08Grow(120)
+	}
+	return []byte("k" + strconv.Itoa(int(k))), nil
+}
+
+type C08KM struct {
+	A int
+	M map[C08Key]*C08KM
+	I interface{}
+	B string
+}
+
+func c08KeyChain(depth int) *C08KM {
+	var n *C08KM
+	for i := 0; i < depth; i++ {
+		m := &C08KM{A: i, B: "b"}
+		switch i % 3 {
+		case 0:
+			m.M = map[C08Key]*C08KM{C08Key(i): n, C08Key(i + 1): nil, C08Key(i + 2): {A: -i}}
+		case 1:
+			m.I = map[C08Key]interface{}{C08Key(i): n, C08Key(i + 3): i}
+		default:
+			m.I = n
+			m.M = map[C08Key]*C08KM{}
+		}
+		n = m
+	}
+	return n
+}
+
+// ---- every field kind before and after every kind of recursive / interface member ----
+
+type c08Kind struct {
+	name string
+	t    reflect.Type
+	mk   func(i int) interface{} // a populated value of the kind (the other state is the zero value)
+}
+
+func c08SweepKinds() []c08Kind {
+	type pair struct {
+		X int
+		Y string
+	}
+	type one struct{ X int8 }
+	return []c08Kind{
+		{"bool", reflect.TypeOf(false), func(i int) interface{} { return true }},
+		{"int8", reflect.TypeOf(int8(0)), func(i int) interface{} { return int8(-i - 1) }},
+		{"int64", reflect.TypeOf(int64(0)), func(i int) interface{} { return int64(i) << 40 }},
+		{"uint16", reflect.TypeOf(uint16(0)), func(i int) interface{} { return uint16(65535 - i) }},
+		{"float32", reflect.TypeOf(float32(0)), func(i int) interface{} { return float32(i) + 0.25 }},
+		{"string", reflect.TypeOf(""), func(i int) interface{} { return "s<" + strconv.Itoa(i) + ">" }},
+		{"[]byte", reflect.TypeOf([]byte(nil)), func(i int) interface{} { return []byte{1, 2, byte(i)} }},
+		{"[]int32", reflect.TypeOf([]int32(nil)), func(i int) interface{} { return []int32{int32(i), -1} }},
+		{"[2]string", reflect.TypeOf([2]string{}), func(i int) interface{} { return [2]string{"a", strconv.Itoa(i)} }},
+		{"[0]int", reflect.TypeOf([0]int{}), func(i int) interface{} { return [0]int{} }},
+		{"map[string]int", reflect.TypeOf(map[string]int(nil)), func(i int) interface{} { return map[string]int{"b": i, "a": 1} }},
+		{"*int", reflect.TypeOf((*int)(nil)), func(i int) interface{} { x := i; return &x }},
+		{"*string", reflect.TypeOf((*string)(nil)), func(i int) interface{} { x := "p"; return &x }},
+		{"struct", reflect.TypeOf(pair{}), func(i int) interface{} { return pair{i, "y"} }},
+		{"*struct", reflect.TypeOf((*one)(nil)), func(i int) interface{} { return &one{int8(i)} }},
+		{"interface{}", tgIface, func(i int) interface{} {
+			return []interface{}{i, "x", map[string]interface{}{"k": nil}, []interface{}{1.5, "x"}, int8(i)}[i%5]
+		}},
+		{"marshaler", reflect.TypeOf(C08GC{}), func(i int) interface{} {
+			if i%16 == 5 {
+				return C08GC{37}
+			}
+			return C08GC{i*37 + 1}
+		}},
+		{"*text marshaler", reflect.TypeOf((*C08GCText)(nil)), func(i int) interface{} { return &C08GCText{i*40 + 1} }},
+		{"json.Number", reflect.TypeOf(stdjson.Number("")), func(i int) interface{} { return stdjson.Number(strconv.Itoa(i) + ".5") }},
+		{"[]interface{}", reflect.TypeOf([]interface{}(nil)), func(i int) interface{} { return []interface{}{i, nil, "e"} }},
+		{"map[string]interface{}", reflect.TypeOf(map[string]interface{}(nil)), func(i int) interface{} { return map[string]interface{}{"z": i, "y": []interface{}{}} }},
+		{"non-empty interface", reflect.TypeOf((*C08Shape)(nil)).Elem(), func(i int) interface{} {
+			return []C08Shape{C08Dot(i), &C08Tri{1, 2, 3}, C08Sq{W: i}, C08Poly{C08Dot(1)}}[i%4]
+		}},
+	}
+}
+
+func c08SweepMembers(r interface{ Intn(int) int }) []c08Kind {
+	return []c08Kind{
+		{"*recursive", reflect.TypeOf((*C08Link)(nil)), func(i int) interface{} { return c08LinkChain(1 + i%3) }},
+		{"*fat recursive", reflect.TypeOf((*C08Node)(nil)), func(i int) interface{} {
+			g := C08GC{i*37 + 1}
+			if i%16 == 3 {
+				g = C08GC{37} // collects
+			}
+			leaf := &C08Node{A: 1, B: "leaf", G: C08GC{1}, I: []interface{}{i, map[string]interface{}{"k": "v"}}, PI: c08PIValue(i)}
+			return &C08Node{A: int8(i), G: g, T: &C08GCText{i*40 + 1}, I: leaf, C: []C08Node{{G: C08GC{2}, Next: leaf}}, D: map[string]*C08Node{"d": leaf, "n": nil}, F: [2]*C08Node{nil, leaf}}
+		}},
+		{"[]recursive", reflect.TypeOf([]C08Tree(nil)), func(i int) interface{} { return []C08Tree{c08TreeChain(i % 3), {Tag: "t"}} }},
+		{"map of *recursive", reflect.TypeOf(map[string]*C08Link(nil)), func(i int) interface{} {
+			return map[string]*C08Link{"a": c08LinkChain(2), "b": nil}
+		}},
+		{"[2]*recursive", reflect.TypeOf([2]*C08Link{}), func(i int) interface{} { return [2]*C08Link{nil, c08LinkChain(2)} }},
+		{"interface{} holding recursive", tgIface, func(i int) interface{} {
+			switch i % 3 {
+			case 0:
+				return c08ThinQuiet(3+i%3, i)
+			case 1:
+				return map[string]interface{}{"k": []interface{}{c08TreeChain(2), i}}
+			}
+			return C08Link{V: i, Next: c08LinkChain(1)}
+		}},
+		{"*interface{}", reflect.TypeOf((*interface{})(nil)), func(i int) interface{} { return c08PIValue(i) }},
+		{"non-empty interface holding recursive", reflect.TypeOf((*C08Shape)(nil)).Elem(), func(i int) interface{} { return c08NIChain(2+i%3, r) }},
+		{"*recursive with non-empty interfaces", reflect.TypeOf((*C08NI)(nil)), func(i int) interface{} { return c08NIChain(1+i%4, r) }},
+		{"*recursive with callbacks that re-enter", reflect.TypeOf((*C08RE)(nil)), func(i int) interface{} { return c08ReenterChain(1 + i%3) }},
+	}
+}
+
+func c08PositionSweep(o *Out, r interface{ Intn(int) int }, run func(desc string, v interface{}, cyclic bool)) {
+	kinds := c08SweepKinds()
+	members := c08SweepMembers(r)
+	seen := map[string]bool{}
+	n := 0
+	one := func(bi, mi, ai int) {
+		b, m, a := kinds[bi], members[mi], kinds[ai]
+		key := fmt.Sprintf("%d/%d/%d", bi, mi, ai)
+		if seen[key] {
+			return
+		}
+		seen[key] = true
+		t := reflect.StructOf([]reflect.StructField{{Name: "B", Type: b.t}, {Name: "M", Type: m.t}, {Name: "A", Type: a.t}})
+		if cls := tgKnownBadAnywhere(reflect.PtrTo(t), 0); cls != "" {
+			o.count("position_sweep_skipped_for_recorded_finding:"+cls, 1)
+			return
+		}
+		n++
+		o.count("position_sweep_types", 1)
+		o.count("position_sweep_member:"+m.name, 1)
+		for state := 0; state < 2; state++ {
+			if state == 1 && o.tier != "thorough" && n%3 != 0 {
+				continue // the mostly-empty state: every third type
+			}
+			v := reflect.New(t)
+			if state == 0 || n%2 == 0 {
+				v.Elem().Field(0).Set(reflect.ValueOf(b.mk(n)))
+			}
+			if state == 0 || n%4 == 1 {
+				v.Elem().Field(2).Set(reflect.ValueOf(a.mk(n + 1)))
+			}
+			if state == 0 || n%5 == 0 {
+				v.Elem().Field(1).Set(reflect.ValueOf(m.mk(n)))
+			}
+			desc := fmt.Sprintf("position sweep: struct{B %s; M %s; A %s}, state %d", b.name, m.name, a.name, state)
+			switch (n + state) % 3 {
+			case 0:
+				run(desc+", by pointer", v.Interface(), false)
+			case 1:
+				run(desc+", by value", v.Elem().Interface(), false)
+			default:
+				run(desc+", in an interface member", C08Wrap{n, v.Interface(), "after"}, false)
+			}
+		}
+	}
+	for mi := range members {
+		for ki := range kinds {
+			if o.tier != "thorough" && strings.Contains(members[mi].name, "re-enter") && ki%3 != mi%3 {
+				continue // every callback of this member runs both libraries on its inner value
+			}
+			// every kind before the member and every kind after it; the other neighbour rotates
+			one(ki, mi, (ki+mi+1)%len(kinds))
+			one((ki*7+mi+3)%len(kinds), mi, ki)
+		}
+	}
+	if o.tier == "thorough" {
+		for mi := range members {
+			for bi := range kinds {
+				for ai := range kinds {
+					one(bi, mi, ai)
+				}
+			}
+		}
+	}
+}
+
+// ---- an encode that fails at some depth, then encodes that must be right ----
+
+type C08FailText struct{ N int }
+
+func (f C08FailText) MarshalText() ([]byte, error) { return nil, fmt.Errorf("text refused %d", f.N) }
+
+// c08Poisoned returns a value that cannot be encoded (the reason sits at the bottom, depth levels down), the name of the
+// reason and, where the value can be repaired in place, the function that does it
+func c08Poisoned(depth, poison int) (*C08Node, string, func()) {
+	var cure func()
+	q := C08GC{1} // does not collect
+	bottom := &C08Node{A: -1, B: "bottom", G: q}
+	name := ""
+	switch poison {
+	case 0:
+		bottom.I = TgMErr{Fail: true}
+		name = "MarshalJSON error in an interface member"
+		cure = func() { bottom.I = TgMErr{} }
+	case 1:
+		bottom.E = math.NaN()
+		name = "NaN"
+		cure = func() { bottom.E = 1.5 }
+	case 2:
+		bottom.I = make(chan int)
+		name = "a channel in an interface member"
+	case 3:
+		bottom.I = map[string]interface{}{"a": 1, "b": TgMErr{Fail: true}, "c": []interface{}{2}}
+		name = "MarshalJSON error inside a map inside an interface member"
+	case 4:
+		bottom.D = map[string]*C08Node{"x": {I: func() {}, G: q}, "a": {A: 3, G: q}}
+		name = "a function value below a map"
+	case 5:
+		bottom.I = map[C08FailText]int{{1}: 1}
+		name = "MarshalText error in a map key"
+	case 6:
+		bottom.Next = bottom
+		name = "a cycle"
+		cure = func() { bottom.Next = nil }
+	default:
+		bottom.C = []C08Node{{A: 1, G: q}, {I: []interface{}{1, C08FailText{2}}, G: q}}
+		name = "MarshalText error below a slice"
+	}
+	n := bottom
+	for i := 0; i < depth; i++ {
+		m := &C08Node{A: int8(i), B: "b", E: 0.5, Z: true, G: q}
+		if i == depth/2 {
+			m.G = C08GC{37} // one collection and stack move on the way down
+		}
+		k := i % 5
+		if depth > 300 {
+			k = 0 // the wide links make the text quadratic
+		}
+		switch k {
+		case 0:
+			m.Next = n
+		case 1:
+			m.I = n
+		case 2:
+			m.D = map[string]*C08Node{"k": n, "a": {A: 1, G: q}}
+		case 3:
+			m.C = []C08Node{{A: 2, G: q}, *n}
+		default:
+			m.I = map[string]interface{}{"p": []interface{}{n}}
+		}
+		n = m
+	}
+	return n, name, cure
+}
+
+func c08ErrorThenReuse(o *Out, vars []c08Variant, skipped func() bool) {
+	q := C08GC{1}
+	canary := C08Wrap{7, []interface{}{c08LinkChain(3), c08TreeChain(2), map[string]interface{}{"b": c08ThinQuiet(4, 1), "a": []int{1, 2}},
+		&C08Node{A: 1, B: "x", G: q, I: &C08Node{G: q, D: map[string]*C08Node{"k": {A: 2, G: q}}}, F: [2]*C08Node{nil, {A: 3, G: q}}}, c08NIChain(4, rand.New(rand.NewSource(5)))}, "z"}
+	wants := make([][]byte, len(vars))
+	for i, va := range vars {
+		wants[i], _ = va.std(canary)
+	}
+	depths := []int{0, 1, 2, 5, 60, 1001}
+	for _, d := range depths {
+		for poison := 0; poison < 8; poison++ {
+			if d > 300 && o.tier != "thorough" && poison != 0 && poison != 1 && poison != 6 {
+				continue
+			}
+			if skipped() {
+				continue
+			}
+			v, name, cure := c08Poisoned(d, poison)
+			for i, va := range vars {
+				if d > 300 && o.tier != "thorough" && i%3 != poison%3 {
+					continue
+				}
+				o.current(map[string]string{"property": "C08", "case": "failing encode then canary", "failure": name, "depth": strconv.Itoa(d), "variant": va.name})
+				_, werr := c01Safe(func() ([]byte, error) { return va.std(v) })
+				if werr == nil {
+					o.count("error_then_reuse_oracle_has_no_error", 1)
+					continue
+				}
+				_, err := c01Safe(func() ([]byte, error) { return va.f(v) })
+				o.count("error_then_reuse_cases", 1)
+				o.count("error_then_reuse:"+name, 1)
+				det := map[string]string{"failure": name, "depth": strconv.Itoa(d), "variant": va.name}
+				if err == nil {
+					o.violation("C08", "a value encoding/json refuses was encoded without an error", det)
+				} else if strings.HasPrefix(err.Error(), "PANIC") {
+					det["panic"] = clipN(err.Error(), 300)
+					o.violation("C08", "a value that cannot be encoded made the encoder panic", det)
+				}
+				if cure != nil && i%2 == 0 {
+					// the caller repairs the value and tries again: the very addresses the failed call has seen
+					cure()
+					got, err := c01Safe(func() ([]byte, error) { return va.f(v) })
+					want, werr := c01Safe(func() ([]byte, error) { return va.std(v) })
+					o.count("error_then_repaired_value", 1)
+					if werr == nil && (err != nil || !(tgSameJSON(got, want) || va.unordered() && c08SameValue(got, want))) {
+						det["repaired_error"] = fmt.Sprint(err)
+						o.violation("C08", "after an encode that failed, the repaired value was not encoded like encoding/json does", det)
+					}
+					v, name, cure = c08Poisoned(d, poison)
+				}
+				// the same entry point again (it takes the context the failed call gave back), and every other one
+				for j := 0; j < len(vars); j++ {
+					k := (i + j) % len(vars)
+					if j > 1 && (i+j)%4 != 0 {
+						continue
+					}
+					got, err := c01Safe(func() ([]byte, error) { return vars[k].f(canary) })
+					o.count("error_then_reuse_canaries", 1)
+					ok := err == nil && (tgSameJSON(got, wants[k]) || vars[k].unordered() && c08SameValue(got, wants[k]))
+					if !ok {
+						det["canary_variant"] = vars[k].name
+						if err != nil {
+							det["canary_error"] = clipN(err.Error(), 300)
+						} else {
+							det["first_difference"] = strconv.Itoa(firstDiff(got, wants[k]))
+							det["got_at_difference"], det["want_at_difference"] = around(got, firstDiff(got, wants[k])), around(wants[k], firstDiff(got, wants[k]))
+						}
+						o.violation("C08", "after an encode that failed, an acyclic value was encoded wrongly", det)
+						break
+					}
+				}
+			}
+		}
+	}
+}
+
+// ---- stack-resident values through the other entry points ----
+
+//go:noinline
+func c08StackCaseEncoder(seed int64, indent bool) (string, string) {
+	var x int64 = seed * 3
+	v := C08Stack{A: seed, M: C08Mover{int(seed)}, B: seed + 1, S: "after", C: [4]int64{seed, seed + 1, seed + 2, seed + 3}, P: &x, Z: seed + 9}
+	want := fmt.Sprintf(`{"A":%d,"M":%d,"B":%d,"S":"after","C":[%d,%d,%d,%d],"P":%d,"Z":%d}`, seed, seed, seed+1, seed, seed+1, seed+2, seed+3, seed*3, seed+9)
+	var b bytes.Buffer
+	e := gojson.NewEncoder(&b)
+	if indent {
+		e.SetIndent("", " ")
+	}
+	if err := e.Encode(&v); err != nil {
+		return "ERR " + err.Error(), want
+	}
+	got := bytes.ReplaceAll(bytes.ReplaceAll(bytes.ReplaceAll(b.Bytes(), []byte("\n"), nil), []byte(": "), []byte(":")), []byte(" "), nil)
+	return string(got), want
+}
+
+//go:noinline
+func c08StackCaseOption(seed int64) (string, string) {
+	var x int64 = seed * 3
+	v := C08Stack{A: seed, M: C08Mover{int(seed)}, B: seed + 1, S: "after", C: [4]int64{seed, seed + 1, seed + 2, seed + 3}, P: &x, Z: seed + 9}
+	want := fmt.Sprintf(`{"A":%d,"M":%d,"B":%d,"S":"after","C":[%d,%d,%d,%d],"P":%d,"Z":%d}`, seed, seed, seed+1, seed, seed+1, seed+2, seed+3, seed*3, seed+9)
+	got, err := gojson.MarshalWithOption(v, gojson.UnorderedMap(), gojson.DisableHTMLEscape())
+	if err != nil {
+		return "ERR " + err.Error(), want
+	}
+	return string(got), want
+}
+
+// MarshalNoEscape is the entry point that leaves the value on the stack by design
+//
+//go:noinline
+func c08StackCaseNoEscape(seed int64, byValue bool) (string, string) {
+	var x int64 = seed * 3
+	v := C08Stack{A: seed, M: C08Mover{int(seed)}, B: seed + 1, S: "after", C: [4]int64{seed, seed + 1, seed + 2, seed + 3}, P: &x, Z: seed + 9}
+	want := fmt.Sprintf(`{"A":%d,"M":%d,"B":%d,"S":"after","C":[%d,%d,%d,%d],"P":%d,"Z":%d}`, seed, seed, seed+1, seed, seed+1, seed+2, seed+3, seed*3, seed+9)
+	var got []byte
+	var err error
+	if byValue {
+		got, err = gojson.MarshalNoEscape(v)
+	} else {
+		got, err = gojson.MarshalNoEscape(&v)
+	}
+	if err != nil {
+		return "ERR " + err.Error(), want
+	}
+	return string(got), want
 }
